@@ -54,6 +54,26 @@ RoutingNext == steps < MaxSteps /\
   \/ \E t \in RNames, q \in {0, 2} : ApiPublish(t, q, FALSE, "x")
 RoutingSpec == RoutingInit /\ [][RoutingNext]_vars
 
+(* C01, several subscribers on ONE filter with different granted QoS, joining, re-subscribing and leaving in every
+   order (an implementation may keep subscribers and their QoS in parallel lists): narrow alphabet, deep          *)
+SameNext == steps < MaxSteps /\
+  \/ \E c \in {c1, c2}, q \in 0..2 : Subscribe(c, 1, << <<<<"a">>, q>> >>)
+  \/ \E c \in {c1, c2} : Unsubscribe(c, 2, << <<"a">> >>)
+  \/ \E q \in 0..2 : ApiSubscribe(L1, <<"a">>, q)
+  \/ ApiUnsubscribe(L1, <<"a">>)
+  \/ End(c2, "cut")
+  \/ ApiPublish(<<"a">>, 2, FALSE, "x")
+SameSpec == BothUp({<<"a">>}) /\ [][SameNext]_vars
+\* all paths: every sequence of joins, re-subscriptions and leaves of the given length, observed by one probe publish
+\* at the end (what the store has become does not depend on earlier probes)
+SameMut == \/ \E c \in {c1, c2}, q \in 0..2 : Subscribe(c, 1, << <<<<"a">>, q>> >>)
+           \/ \E c \in {c1, c2} : Unsubscribe(c, 2, << <<"a">> >>)
+           \/ \E q \in {0, 2} : ApiSubscribe(L1, <<"a">>, q)
+           \/ ApiUnsubscribe(L1, <<"a">>)
+           \/ End(c2, "cut")
+SameLastNext == steps < MaxSteps /\ IF steps < MaxSteps - 1 THEN SameMut ELSE ApiPublish(<<"a">>, 2, FALSE, "x")
+SameLastSpec == BothUp({<<"a">>}) /\ [][SameLastNext]_vars
+
 (* C02 receiver side of QoS 1/2: publisher c1, witness c2 subscribed to '#' at QoS 2;
    big QoS 0 filler traffic wraps the 16 KiB ring between PUBLISH and PUBREL          *)
 QNames == {<<"a">>, <<"z">>}
@@ -93,11 +113,14 @@ FwdSpec == QosInit /\ [][FwdNext]_vars
 SNames == {<<"a">>, <<"a","b">>, <<"b">>}
 FV1 == <<"a">>  FV2 == <<"a","b">>  FV3 == <<"+">>  FV4 == <<"a","#">>  FV5 == <<"b">>
 FI1 == <<"a","#","b">>  FI2 == <<"a+">>  FI3 == <<"#","a">>
+FL == <<"LONG">>        \* the replayer sends a level of 130 characters: the request's remaining length takes two bytes
 SubReqs == { << <<FV1, 1>> >>, << <<FV1, 0>>, <<FV2, 2>> >>, << <<FV3, 2>>, <<FV1, 1>>, <<FV3, 0>> >>,
              << <<FI1, 1>> >>, << <<FV1, 1>>, <<FI2, 0>>, <<FV2, 2>> >>, << <<FV2, 3>> >>, << <<FV1, 3>>, <<FV4, 1>> >>,
              << <<FV1, 0>>, <<FV2, 1>>, <<FV3, 2>>, <<FV4, 0>>, <<FV5, 1>> >>,
-             << <<FV1, 2>>, <<FV2, 2>>, <<FV3, 2>>, <<FV4, 2>>, <<FV5, 2>>, <<FI3, 1>>, <<FV1, 0>>, <<FV2, 0>>, <<FV3, 1>> >> }
-UnsubReqs == { <<FV1>>, <<FV1, FV2>>, <<FV3, FV3>>, <<FV1, FV2, FV3, FV4, FV5>>, <<FV5, FV4, FV3, FV2, FV1, FI1, FV1, FV2, FV3>>, <<FI2>> }
+             << <<FV1, 2>>, <<FV2, 2>>, <<FV3, 2>>, <<FV4, 2>>, <<FV5, 2>>, <<FI3, 1>>, <<FV1, 0>>, <<FV2, 0>>, <<FV3, 1>> >>,
+             << <<FL, 1>>, <<FV1, 2>> >>, << <<FV2, 1>>, <<FL, 0>>, <<FV3, 1>> >> }
+UnsubReqs == { <<FV1>>, <<FV1, FV2>>, <<FV3, FV3>>, <<FV1, FV2, FV3, FV4, FV5>>, <<FV5, FV4, FV3, FV2, FV1, FI1, FV1, FV2, FV3>>, <<FI2>>,
+               <<FL, FV1>>, <<FL, FV2, FV3>>, <<FV1, FL>> }
 SubsInit == BothUp(SNames)
 SubsNext == steps < MaxSteps /\
   \/ \E c \in {c1, c2} : Connect(c, KOf(c), TRUE, NoWill)
@@ -132,6 +155,16 @@ Retain1Next == steps < MaxSteps /\
   \/ Unsubscribe(c2, 3, << <<"a">>, <<"#">> >>)
   \/ ApiSubscribe(L1, <<"a">>, 2) \/ ApiUnsubscribe(L1, <<"a">>)
 Retain1Spec == BothUp({<<"a">>}) /\ [][Retain1Next]_vars
+
+\* all paths over a chain of topics: every history of storing and clearing retained messages on a topic, its
+\* descendants and an unrelated topic (an implementation that keeps them in a tree prunes and re-creates nodes),
+\* observed by one probe subscription at the end
+RTNames == {<<"a">>, <<"a","b">>, <<"a","b","c">>, <<"d">>}
+RetTreeMut == \E t \in RTNames, pl \in {"x", ""} : Publish(c1, t, 0, TRUE, pl, 0, FALSE)
+RetTreeLastNext == steps < MaxSteps /\
+  IF steps < MaxSteps - 1 THEN RetTreeMut
+  ELSE \E f \in {<<"#">>, <<"a">>, <<"a","#">>, <<"a","+">>, <<"a","b","c">>} : Subscribe(c2, 1, << <<f, 1>> >>)
+RetTreeLastSpec == BothUp(RTNames) /\ [][RetTreeLastNext]_vars
 
 (* C09 wills: connect / end sequences on client id k1 (fresh and resumed sessions, changing
    will), witness c2 subscribed to '#'                                                     *)
